@@ -239,6 +239,44 @@ def fine_stage(res, pid, tier):
                                   {'kind': 'property-on-implementation', 'program': prog, 'schedule': sched,
                                    'trace': [l for l in blk if l.startswith('E ')], 'problems': probs,
                                    'replay_hint': 'build/bin/qsbr_sched --prog "%s" --replay %s' % (prog, sched)})
+    # trace validation against the fine-grained Coq model (Qsbr/QsbrFine.v: one step per atomic access inside the calls):
+    # every event of every explored execution must be the next step of the extracted acceptor, and the acceptor's own
+    # ghost must never see a block freed with a non-empty waiting set
+    rmax = 20000 if thorough else 700
+    rrand = 2000 if thorough else 100
+
+    def replay(arg):
+        i, prog = arg
+        cmd = '%s --prog %s --bound %d --max %d --random %d --seed %d --trace 1 | %s -q' % (
+            os.path.join(BIN, 'qsbr_sched'), "'" + prog + "'", bound, rmax, rrand, seed() + i, os.path.join(OCAML, 'qsbr_fine_replay'))
+        return prog, sh(cmd, timeout=3000 if thorough else 420)
+    with ThreadPoolExecutor(max_workers=8) as ex:
+        routs = list(ex.map(replay, list(enumerate(progs))))
+    tr_n = ev_n = rej_n = bad_n = 0
+    for prog, (rc, o, e) in routs:
+        tl = [l for l in o.splitlines() if l.startswith('T traces=')]
+        if rc != 0 or not tl:
+            res.violation('trace validation against the fine-grained model failed to run (rc=%s) on program %s: %s' % (rc, prog, (e or o)[-300:]),
+                          {'kind': 'crash', 'program': prog})
+            continue
+        f = dict(x.split('=') for x in tl[0].split()[1:])
+        tr_n += int(f['traces']); ev_n += int(f['events']); rej_n += int(f['rejected']); bad_n += int(f.get('bad', 0))
+        firsts = [l for l in o.splitlines() if l.startswith('REJECT') or l.startswith('BAD')][:3]
+        if int(f['rejected']) and len(res.violations) < 4:
+            res.violation('the fine-grained model (Qsbr/QsbrFine.v) rejects %s of %s traces of the implementation on program %s: %s'
+                          % (f['rejected'], f['traces'], prog, '; '.join(firsts)[:300]),
+                          {'kind': 'correspondence', 'program': prog, 'broken': 'qsbr_sched traces vs extracted QsbrFine.fstep', 'first': firsts},
+                          found_input=False)
+        if int(f.get('bad', 0)) and pid == 'C05' and len(res.violations) < 4:
+            res.violation('C05 violated: in %s of %s accepted traces on program %s the model sees a block freed while a thread registered at '
+                          'the request has not passed a quiescent state' % (f['bad'], f['traces'], prog),
+                          {'kind': 'property-on-implementation', 'program': prog, 'first': firsts})
+    res.coverage['fine_traces_validated'] = tr_n - rej_n
+    res.coverage['fine_trace_events'] = ev_n
+    res.coverage['fine_traces_rejected'] = rej_n
+    if tr_n == 0:
+        res.violation('no trace was validated against the fine-grained model', {'kind': 'correspondence', 'broken': 'qsbr_fine_replay'},
+                      found_input=False)
     res.coverage['fine_executions'] = total
     res.coverage['fine_programs'] = len(progs)
     res.coverage['fine_preemption_bound'] = bound
@@ -267,7 +305,7 @@ def check(pid, tier, replay=None):
         'Python ghost in tools/p_qsbr.py used only to search for failing inputs',
     ]
     with Lock():
-        err = extract_and_build_ocaml(['qsbr_run'])
+        err = extract_and_build_ocaml(['qsbr_run', 'qsbr_fine_replay'])
         b, berr = build_cxx('qsbr_coarse', [os.path.join(VERIF, 'harness', 'qsbr_coarse.cpp'), os.path.join(REPO, 'qsbr.cpp'),
                                             os.path.join(REPO, 'qsbr_ptr.cpp')], HOOK_FLAGS)
     if err or berr:
